@@ -10,6 +10,7 @@ import (
 	"path/filepath"
 	"sort"
 	"strconv"
+	"strings"
 
 	"github.com/gopacket/gopacket"
 	"github.com/gopacket/gopacket/layers"
@@ -275,8 +276,71 @@ func stpFields(r *lib.Rand) string {
 
 // ---------------------------------------------------------------- generator
 
-func gen(r *lib.Rand, tier string, emit func(string)) {
+// opClass: "dec" = everything that only decodes, "rt" = serialize+decode round trips, "ser" = SerializeTo.
+func opClass(line string) string {
+	f := strings.Fields(line)
+	if len(f) < 2 {
+		return ""
+	}
+	switch f[1] {
+	case "rt", "rtdec":
+		return "rt"
+	case "ser":
+		return "ser"
+	}
+	return "dec"
+}
+
+// allowedClasses reads the optional trailing generator argument `ops=dec,rt,ser` (props/parts/*.lllc.json
+// "gen_args"): every property runs the op classes that bear on it, so that e.g. a defect of a serializer
+// is reported by C06/C07 and not as a broken correspondence of C19/C05.  Default: all classes.
+func allowedClasses() map[string]bool {
+	for _, a := range os.Args {
+		if strings.HasPrefix(a, "ops=") {
+			m := map[string]bool{}
+			for _, c := range strings.Split(a[4:], ",") {
+				m[c] = true
+			}
+			return m
+		}
+	}
+	return map[string]bool{"dec": true, "rt": true, "ser": true}
+}
+
+// regressions: serializer / round-trip inputs that once failed (decode-only ones are in corpus/lllc/).
+var regressions = []string{
+	"reset",
+	// lllc-1: I-format control field whose first octet is 0 (Control < 0x100 after decoding)
+	"lllc rtdec llc aaaa0000010203", "lllc rtdec llc 42420000", "lllc rtdec llc 10210003ff",
+	"lllc rt llc 170 0 170 0 0 010203", "lllc rt llc 66 1 66 1 2 -", "lllc ser llc 0 0 dirty165 0 0 0 0 0 -",
+	"lllc rt llc 170 0 170 0 3 0001", "lllc rt llc 170 1 170 1 65279 0001", "lllc rt llc 0 0 0 0 768 07",
+	"reset",
+	// lllc-2: SNAP with a short OrganizationalCode (zero value included)
+	"lllc ser snap 1 1 fresh - 0 -", "lllc ser snap 0 0 dirty165 0102 2048 aa", "lllc ser snap 0 1 sized5 01 2048 -",
+	"lllc rt snap 010203 2048 aabb", "lllc rt snap 01020304 2048 aabb",
+	"reset",
+	// lllc-3: STP with short addresses over dirty buffers
+	"lllc ser stp 0 0 fresh 0 0 0 0 0 4096 1 0102 0 8192 0 - 0 0 0 0 0 -",
+	"lllc ser stp 0 0 dirty165 0 0 0 0 0 4096 1 0102 0 8192 0 - 0 0 0 0 0 -",
+	"lllc ser stp 1 1 dirty90 0 0 0 1 1 0 0 - 0 0 0 - 0 0 0 0 0 0a0b",
+	"reset",
+	// lllc-4: bridge priority 0
+	"lllc rtdec stp 0000000000000000000000000000000000000000000000000000000000000000000000",
+	"lllc rtdec stp 000000008100010102030405060000000400010102030405068001000014000200000fdead",
+	"lllc rt stp 0 0 0 0 0 0 0 010203040506 0 0 0 010203040506 0 0 0 0 0 -",
+}
+
+func gen(r *lib.Rand, tier string, emit0 func(string)) {
 	thorough := tier == "thorough"
+	allowed := allowedClasses()
+	emit := func(line string) {
+		if line == "reset" || allowed[opClass(line)] {
+			emit0(line)
+		}
+	}
+	for _, l := range regressions {
+		emit(l)
+	}
 	emit("reset")
 	emit("lllc nlttab")
 
